@@ -150,9 +150,9 @@ def main(tier):
                 run.broke('corr', 'priority_level_number is not the identity on its samples', {'input': k, 'level': v})
     n = 200 if tier == 'quick' else 3000
     specs = [gen(rng) for _ in range(n)]
-    reqs = [('c04.compile', {'spec': sp.ast(), 'prefs': [p.ast for p in sp.pref_sentences], 'order': sp.order}) for sp in specs]
+    reqs = [('c04.compile', {'spec': sp.ast(), 'prefs': [a for p in sp.pref_sentences for a in p.asts], 'order': sp.order}) for sp in specs]
     answers = common.run_model(reqs)
-    results = rt.pmap(_job, [(full_text(sp), sp.ast(), [p.ast for p in sp.pref_sentences], sp.order) for sp in specs], chunksize=2)
+    results = rt.pmap(_job, [(full_text(sp), sp.ast(), [a for p in sp.pref_sentences for a in p.asts], sp.order) for sp in specs], chunksize=2)
     stats = {'accepted': 0, 'rejected': 0, 'undecided': 0, 'optimal_models': 0}
     kinds = {}
     for sp, a, r in zip(specs, answers, results):
